@@ -25,9 +25,9 @@ func main() {
 	}
 	// the explorers allocate many short-lived objects on 16 workers: collect rarely while the heap is
 	// small, but never let it grow beyond a soft limit (the BFS scenarios keep millions of state keys
-	// alive; 11x their size would not fit the machine). GOTSMC_MEMLIMIT_MB overrides the 12 GiB default.
+	// alive; 11x their size would not fit the machine). GOTSMC_MEMLIMIT_MB overrides the 8 GiB default.
 	debug.SetGCPercent(1000)
-	limit := int64(12) << 30
+	limit := int64(8) << 30
 	if v, err := strconv.Atoi(os.Getenv("GOTSMC_MEMLIMIT_MB")); err == nil && v > 0 {
 		limit = int64(v) << 20
 	}
